@@ -586,6 +586,17 @@ pub(crate) struct MqttClientImpl {
 }
 
 
+/// Adds a user-configured duration to a time point.  Configuration accepts any duration, including ones
+/// (Duration::MAX) whose sum with a time point cannot be represented; such a deadline is replaced by one
+/// far enough in the future to never matter.
+pub(crate) fn add_duration_saturating(base: Instant, duration: Duration) -> Instant {
+    match base.checked_add(duration) {
+        Some(timepoint) => timepoint,
+        // roughly 30 years
+        None => base + Duration::from_secs(946_080_000),
+    }
+}
+
 impl MqttClientImpl {
 
     pub(crate) fn new(client_config: MqttClientOptions, connect_config: ConnectOptions, callback_spawner: CallbackSpawnerFunction) -> Self {
@@ -985,7 +996,7 @@ impl MqttClientImpl {
         debug!("client impl transition_to_state - old state: {}, new_state: {}", old_state, new_state);
 
         if new_state == ClientImplState::Connected {
-            let establishment_timeout = self.last_start_connect_time.unwrap() + self.connect_timeout;
+            let establishment_timeout = add_duration_saturating(self.last_start_connect_time.unwrap(), self.connect_timeout);
             let mut connection_opened_context = NetworkEventContext {
                 event: NetworkEvent::ConnectionOpened(ConnectionOpenedContext{
                     establishment_timeout,
